@@ -14,3 +14,4 @@ import UgoVerif.Props.C14
 import UgoVerif.Props.C19
 import UgoVerif.Props.C04
 import UgoVerif.Props.C18
+import UgoVerif.Props.C10
